@@ -126,6 +126,23 @@ pub fn exec_serde<S: Sc + Bits + Serialize + DeserializeOwned>(op: &str, f: &str
             };
             Some(Val::Tup(vec![Val::B(ok), Val::B(same)]))
         }
+        // serde_dec_malformed(D, T kind): input that is not an object with three well-typed fields is never accepted
+        ("serde_dec_malformed", [d, Val::T(kind)]) => {
+            let full = with_typed!(d, t, serde_json::to_value(t).ok()?);
+            let field = |k: &str, bad: bool| format!("\"{}\":{}", k, if bad { "\"x\"".to_string() } else { full.get(k).map(|v| v.to_string()).unwrap_or("0".into()) });
+            let text = match kind.as_str() {
+                "seq" => "[1,2,3]".to_string(), "num" => "5".to_string(), "str" => "\"scale\"".to_string(), "null" => "null".to_string(), "bool" => "true".to_string(),
+                "bad_scale" | "bad_rot" | "bad_disp" => format!("{{{},{},{}}}", field("scale", kind == "bad_scale"), field("rot", kind == "bad_rot"), field("disp", kind == "bad_disp")),
+                _ => return None,
+            };
+            let ok = match d {
+                Val::DQ(_) => serde_json::from_str::<DecQ<S>>(&text).is_ok(),
+                Val::D3(_) => serde_json::from_str::<Dec3<S>>(&text).is_ok(),
+                Val::D2(_) => serde_json::from_str::<Dec2<S>>(&text).is_ok(),
+                _ => return None,
+            };
+            Some(Val::Tup(vec![Val::B(ok)]))
+        }
         _ => None,
     }
 }
